@@ -19,7 +19,7 @@ from typing import Optional
 from vivarium.core.registry import divider_registry, serializer_registry, updater_registry
 from vivarium.core.process import ParallelProcess, Process
 from vivarium.library.dict_utils import deep_compare, deep_merge, deep_merge_check, MULTI_UPDATE_KEY
-from vivarium.library.topology import dict_to_paths
+from vivarium.library.topology import dict_to_paths, get_in
 from vivarium.core.types import Processes, Topology, State, Steps, Flow
 from vivarium.core.serialize import QuantitySerializer
 
@@ -1337,14 +1337,17 @@ class Store:
         step_paths = dict_to_paths(root, insertion.get('steps', {}))
         step_updates.extend(step_paths)
 
+        # one entry per process or step, however deep in the inserted
+        # tree it sits (a whole sub-dictionary per top-level key would
+        # replace what the engine already knows below that key, and hide
+        # the flow of nested steps)
         topology_paths = [
-            (root + (key,), topology)
-            for key, topology in insertion['topology'].items()]
+            (leaf_path, get_in(
+                insertion['topology'], leaf_path[len(root):]))
+            for leaf_path, _ in process_paths + step_paths]
         topology_updates.extend(topology_paths)
 
-        flow_paths = [
-            (root + (key,), flow)
-            for key, flow in insertion.get('flow', {}).items()]
+        flow_paths = dict_to_paths(root, insertion.get('flow') or {})
         flow_updates.extend(flow_paths)
 
         self._apply_subschema_path(path)
